@@ -104,7 +104,15 @@ func (StreamingCRLFileReader) ReadCRL(crlProcessor CRLProcessor, crlFilePath str
 	if version > 2 {
 		return nil, errors.New(fmt.Sprintf("CRL version %d is an unknown version", version))
 	}
-	_, _ = readAlgorithmIdentifier(&reader) //skip algorithm identifier
+	tbsAlgorithmIdentifier, err := readAlgorithmIdentifier(&reader)
+	if err != nil {
+		return nil, err
+	}
+	//RFC 5280 5.1.1.2 the signed algorithm identifier must be the same as the one the signature is verified with
+	if tbsAlgorithmIdentifier.Algorithm.Equal(algorithmIdentifier.Algorithm) == false ||
+		bytes.Equal(tbsAlgorithmIdentifier.Parameters.FullBytes, algorithmIdentifier.Parameters.FullBytes) == false {
+		return nil, errors.New("signature algorithm inside and outside of tbsCertList do not match")
+	}
 	issuer := new(pkix.RDNSequence)
 	err = asn1parser.ReadStruct(&reader, issuer)
 	if err != nil {
